@@ -770,7 +770,12 @@ def l6(facts, rep, M):
     # conditioned on params.take_global_guard
     if (gt.get("callee") or "").endswith("::then"):
         n += 1
-        ok = any("take_global_guard" in r.fields for r in trace(body, gt["args"][0]))
+        import termination
+
+        # the condition is a field of the SessionParams parameter, or computed from one (`params.origin.takes_global_guard()`)
+        ok = any("take_global_guard" in r.fields for r in trace(body, gt["args"][0])) or termination.derives_from(
+            body, gt["args"][0], lambda r: r.kind == "param" and r.fields and "SessionParams" in body.local_ty(r.what)
+        )
         rep.check(ok, "L6", short, "guard-iff-take_global_guard", "the access read guard in begin_session is no longer conditioned on params.take_global_guard alone", site=gt.get("ln"), detail="params.take_global_guard.then(|| read_arc(access_lock))")
     # stored into Session.access_guard
     n += 1
